@@ -19,11 +19,81 @@ def cases(tier, seed):
                             "n_tasks": n_tasks, "n_batches": n_batches, "start_idx": start, "with_arr": with_arr, "args": args}
 
 
+IDX_ARRAYS = [[0], [3], [0, 1, 2, 3], [2, 9, 0, 5], [5, 4, 3, 2], [7, 7, 1], [1, 3, 5, 7, 9, 11], [11, 0, 10, 1, 9, 2, 8], [4, 6, 5, 7]]
+_orig_cases = cases
+
+
+def cases(tier, seed):  # noqa: F811
+    yield from _orig_cases(tier, seed)
+    for ia, idx in enumerate(IDX_ARRAYS):
+        for nb in (None, 1, 2, 3, 5, 20):
+            for with_rng in (False, True):
+                yield f"rw/idx{ia}/{nb}/{with_rng}", {"level": "rw", "idx": idx, "n_batches": nb, "rng": with_rng, "npri": None}
+    for npri in (None, 1, 5, 12):
+        for nb in (None, 1, 4, 13, 30):
+            yield f"rw/range/{npri}/{nb}", {"level": "rw", "idx": None, "n_batches": nb, "rng": False, "npri": npri}
+
+
 def nontrivial(inp):
+    if inp.get("level") == "rw":
+        return True
     return inp["n_tasks"] > 1
 
 
+_lib_path = None
+
+
+def _echo_worker(task):
+    first = task[0]
+    rows = list(range(first[0], first[1])) if isinstance(first, tuple) else [int(x) for x in first]
+    return {"rows": rows, "start": task[1], "rest": len(task) - 2, "rng": task[-1] if len(task) > 4 else None}
+
+
+def _check_rw(inp):
+    import os
+    import numpy as np
+    import schwimmbad
+    import support as S
+    import t02
+    from thejoker.multiproc_helpers import run_worker
+    global _lib_path
+    fails = []
+    bad = lambda name, **d: fails.append((f"twin:run_worker/{name}", d))
+    if _lib_path is None or not os.path.exists(_lib_path):
+        _lib_path = t02._write_lib(S.library(12), np.arange(12.0))
+    idx = None if inp["idx"] is None else np.array(inp["idx"])
+    rng = np.random.default_rng(5) if inp["rng"] else None
+    res = run_worker(_echo_worker, schwimmbad.SerialPool(), _lib_path, task_args=("A", "B"), n_batches=inp["n_batches"],
+                     n_prior_samples=inp["npri"], samples_idx=idx, rng=rng)
+    want = list(inp["idx"]) if idx is not None else list(range(12 if inp["npri"] is None else inp["npri"]))
+    got = [r for t in res for r in t["rows"]]
+    if got != want:
+        bad("covers-exactly-the-requested-rows-in-order", got=got, want=want)
+    if any(len(t["rows"]) == 0 for t in res):
+        bad("each-nonempty")
+    pos = 0
+    for t in res:
+        if t["start"] != pos:
+            bad("own-start", got=t["start"], want=pos)
+            break
+        pos += len(t["rows"])
+    if inp["rng"]:
+        gens = [t["rng"] for t in res]
+        if any(not isinstance(g, np.random.Generator) for g in gens):
+            bad("one-child-generator-per-task")
+        else:
+            draws = [tuple(g.integers(0, 2**62, size=3)) for g in gens]
+            if len(set(draws)) != len(draws):
+                bad("children-distinct-within-the-call")
+    return fails
+
+
+_orig_check = None
+
+
 def check(inp):
+    if inp.get("level") == "rw":
+        return _check_rw(inp)
     from thejoker.utils import batch_tasks
     n, nb, s = inp["n_tasks"], inp["n_batches"], inp["start_idx"]
     arr = np.arange(1000, 1000 + s + n + 3) if inp["with_arr"] else None
